@@ -68,8 +68,17 @@ def execute(job):
             if c["fam"] == "traj":
                 mode = plot.PlotMode[c["mode"]]
                 unit = Unit(c["unit"])
-                tr = _build(c["traj"], u, None, None, built)
-                other = _build(c["other"], u, None, None, "se3")
+                uo = u
+                if (n // 3) % 2 == 1:
+                    # the first trajectory given as INTEGER coordinates (unit 1), the other one on a quarter-unit lattice: every
+                    # trajectory is drawn at its own coordinates, whatever the dtype of the other
+                    from evo.core.trajectory import PosePath3D
+                    u, uo = 1.0, 0.25
+                    tr = PosePath3D(positions_xyz=np.array([p["p"] for p in c["traj"]], dtype=np.int64),
+                                    orientations_quat_wxyz=np.array([geom.quat_wxyz(geom.rot(p["r"])) for p in c["traj"]]))
+                else:
+                    tr = _build(c["traj"], u, None, None, built)
+                other = _build(c["other"], uo, None, None, "se3")
                 fig = plt.figure(figsize=(2, 2))
                 ax = plot.prepare_axis(fig, mode, length_unit=unit)
                 plot.traj(ax, mode, tr, plot_start_end_markers=True, label="t")
@@ -87,7 +96,7 @@ def execute(job):
                 ax3 = plot.prepare_axis(fig3, mode)
                 plot.draw_correspondence_edges(ax3, tr, other, mode)
                 seg = _segments(ax3.collections[0])
-                o["edges"] = [[_ints([s[0]], u)[0], _ints([s[1]], u)[0]] for s in seg]
+                o["edges"] = [[_ints([s[0]], u)[0], _ints([s[1]], uo)[0]] for s in seg]
                 fig4 = plt.figure(figsize=(2, 2))
                 ax4 = plot.prepare_axis(fig4, mode)
                 plot.draw_coordinate_axes(ax4, tr, mode, marker_scale=0.5 * c["scale2"] * u)
